@@ -103,7 +103,7 @@ def translate(src: Path) -> dict:
     if not lookup_timeout and 'await self.create_server_response_future' not in src_gpa:
         raise Refuse('_get_peer_address: unknown way of awaiting the reply')
     consts = ast.parse((src / 'aioslsk' / 'constants.py').read_text())
-    out = [HEADER.format(src='src/aioslsk/network/network.py (select_port), constants.py')]
+    out = [HEADER.format(src='src/aioslsk/network/network.py (select_port, shapes of the attempt coroutines), connection.py, constants.py')]
     out.append('Definition select_port (prefer_obfuscated : bool) (port obfuscated_port : Z) : Z * bool :=\n ' + tree + '.\n\n')
     for name in ('PEER_CONNECT_TIMEOUT', 'PEER_INDIRECT_CONNECT_TIMEOUT', 'DISCONNECT_TIMEOUT'):
         out.append(f'Definition {name} : Z := {float_const(consts, name)}.\n')
@@ -115,14 +115,75 @@ def translate(src: Path) -> dict:
         for nd in ast.walk(gpa):
             if isinstance(nd, ast.keyword) and nd.arg == 'timeout':
                 v = nd.value
-                if isinstance(v, ast.Name):
-                    lt = float_const(consts, v.id)
-                else:
-                    lt = int(const_eval(v))
+                lt = float_const(consts, v.id) if isinstance(v, ast.Name) else int(const_eval(v))
             if isinstance(nd, ast.Call) and ast.unparse(nd.func) in ('atimeout', 'asyncio.timeout') and nd.args:
                 v = nd.args[0]
                 lt = float_const(consts, v.id) if isinstance(v, ast.Name) else int(const_eval(v))
     out.append(f'Definition LOOKUP_TIMEOUT : Z := {lt}.\n')
+
+    # ---- clean-up shapes of the attempt coroutines (each flag: is the construct present?)
+    def handlers_for_cancel(fn):
+        """except-handlers of `fn` that catch asyncio.CancelledError (or BaseException), re-raise, and their bodies"""
+        hs = []
+        for nd in ast.walk(fn):
+            if isinstance(nd, ast.ExceptHandler) and nd.type is not None:
+                names = [ast.unparse(t) for t in (nd.type.elts if isinstance(nd.type, ast.Tuple) else [nd.type])]
+                if any(n in ('asyncio.CancelledError', 'CancelledError', 'BaseException') for n in names):
+                    if any(isinstance(x, ast.Raise) and x.exc is None for x in nd.body):
+                        hs.append(nd)
+        return hs
+
+    def calls(nodes, attr):
+        return [c for n in nodes for c in ast.walk(n) if isinstance(c, ast.Call) and isinstance(c.func, ast.Attribute) and c.func.attr == attr]
+
+    dc = find_class(conn, 'DataConnection')
+    dconnect = find_func(dc.body, 'connect')
+    connect_closes = any(calls(h.body, 'disconnect') for h in handlers_for_cancel(dconnect))
+    # does connect() look at the state again after open_connection returned? (C10-N1)
+    direct = find_func(cls.body, '_make_direct_connection')
+    attempt_closes = any(calls(h.body, 'disconnect') for h in handlers_for_cancel(direct))
+    # _make_indirect_connection: send + wait inside a try whose finally cancels the futures
+    cleanup = False
+    for nd in ast.walk(ind):
+        if isinstance(nd, ast.Try) and nd.finalbody and calls(nd.finalbody, 'cancel'):
+            inside = [ast.unparse(c.func) for c in ast.walk(ast.Module(body=nd.body, type_ignores=[])) if isinstance(c, ast.Call)]
+            if 'asyncio.wait' in inside and 'self.server_connection.send_message' in inside:
+                cleanup = True
+    race = find_func(cls.body, '_create_peer_connection_race')
+    race_cancels = any(calls(h.body, 'cancel') for h in handlers_for_cancel(race))
+    race_src = ast.unparse(race)
+    race_second = ('if len(connections) > 1:\n' in race_src and 'await connections[1].disconnect(CloseReason.REQUESTED)' in race_src
+                   and 'return connections[0]' in race_src and 'connections.append(done_task.result())' in race_src)
+    loser_cancelled = 'pending_task.cancel()' in race_src and 'await asyncio.gather(*pending, return_exceptions=True)' in race_src
+    resp = find_func(cls.body, '_handle_connect_to_peer')
+    resp_catches = False
+    for nd in ast.walk(resp):
+        if isinstance(nd, ast.ExceptHandler) and nd.type is not None and calls(nd.body, 'send_message'):
+            names = [ast.unparse(t) for t in (nd.type.elts if isinstance(nd.type, ast.Tuple) else [nd.type])]
+            if 'CannotConnect.Request' in ast.unparse(ast.Module(body=nd.body, type_ignores=[])):
+                covers_connect = any(n in ('NetworkError', 'Exception', 'ConnectionFailedError') for n in names)
+                covers_write = any(n in ('NetworkError', 'Exception', 'ConnectionWriteError') for n in names)
+                if not covers_connect:
+                    raise Refuse('_handle_connect_to_peer: CannotConnect handler does not cover a failed connect')
+                resp_catches = covers_write
+    # the PierceFirewall write must be inside the same try as the connect
+    ind_closes_arrived = any(calls(h.body, 'disconnect') and 'expected_connection_future' in ast.unparse(ast.Module(body=h.body, type_ignores=[]))
+                             for h in handlers_for_cancel(ind))
+    opa = find_func(cls.body, 'on_peer_accepted')
+    pierce_checks_done = any(isinstance(c, ast.Call) and ast.unparse(c) == 'connection_future.done()' for c in ast.walk(opa))
+    flags = [
+        ('INDIRECT_CLOSES_ARRIVED_ON_CANCEL', ind_closes_arrived, '_make_indirect_connection cancelled after the pierce connection arrived disconnects that connection'),
+        ('PIERCE_IGNORES_DONE_WAITER', pierce_checks_done, 'on_peer_accepted treats a PeerPierceFirewall for an already cancelled waiter as an unknown ticket'),
+        ('CONNECT_CLOSES_ON_CANCEL', connect_closes, 'DataConnection.connect: except CancelledError -> disconnect(); raise'),
+        ('ATTEMPT_CLOSES_ON_CANCEL', attempt_closes, '_make_direct_connection: except CancelledError -> connection.disconnect(); raise'),
+        ('INDIRECT_CLEANUP_ALWAYS', cleanup, '_make_indirect_connection: send + wait inside try/finally that cancels the waiter futures'),
+        ('RACE_CANCELS_LOSER', loser_cancelled, 'race mode cancels and awaits the pending attempt when one succeeded'),
+        ('RACE_DISCONNECTS_SECOND', race_second, 'race mode disconnects a second simultaneous success'),
+        ('RACE_CANCELS_ON_CANCEL', race_cancels, 'race mode: except CancelledError around asyncio.wait cancels the attempt tasks'),
+        ('RESPONDER_REPORTS_WRITE_FAILURE', resp_catches, '_handle_connect_to_peer: a failed PeerPierceFirewall write leads to CannotConnect'),
+    ]
+    for name, val, doc in flags:
+        out.append(f'(* {doc} *)\nDefinition {name} : bool := {"true" if val else "false"}.\n')
     return {'PortGen.v': ''.join(out)}
 
 
